@@ -18,6 +18,9 @@ type CpOpts struct {
 	DirContents   bool `json:"dircontents"`
 	AlwaysReplace bool `json:"alwaysreplace"`
 	Wildcards     bool `json:"wildcards"`
+	// Follow: a source argument that is a symbolic link stands for what it
+	// resolves to inside the source root; it still lands under its own name
+	Follow bool `json:"follow,omitempty"`
 }
 
 // CpState is the destination as the model sees it.
@@ -154,11 +157,19 @@ func (s *CpState) Copy(src *Tree, srcPath, dstArg string, o CpOpts) *CpError {
 	}
 	sidx := src.Index()
 	for _, S := range srcs {
-		srcIsDir := S == ""
-		if n, ok := sidx[S]; ok {
+		E := S // the entry that is copied
+		if o.Follow && S != "" {
+			r := ResolveIn(src, S, true)
+			if !r.Exists || r.Loop || r.NotDir {
+				return &CpError{Msg: fmt.Sprintf("source %q does not resolve inside the source root", S)}
+			}
+			E = r.Final
+		}
+		srcIsDir := E == ""
+		if n, ok := sidx[E]; ok {
 			srcIsDir = n.Kind == KDir
-		} else if S != "" {
-			return &CpError{Msg: fmt.Sprintf("source %q does not exist", S)}
+		} else if E != "" {
+			return &CpError{Msg: fmt.Sprintf("source %q does not exist", E)}
 		}
 		base := path.Base(S)
 		dExists := s.exists(D)
@@ -177,7 +188,7 @@ func (s *CpState) Copy(src *Tree, srcPath, dstArg string, o CpOpts) *CpError {
 		if err := s.mkdirAll(par); err != nil {
 			return err
 		}
-		if err := s.overlay(src, sidx, S, T, o); err != nil {
+		if err := s.overlay(src, sidx, E, T, o); err != nil {
 			return err
 		}
 	}
